@@ -112,9 +112,55 @@ def coq_variant(var):
 
 
 PRELUDE = """
+(* canonical, compactly printed form of an observation (printing numerals is what costs time in
+   coqc): ticks become the index of the step that stamped them, the per-step list is printed as its
+   list of changes, texts as hex strings *)
+Definition hexdigit (n : N) : ascii := ascii_of_N (if (n <? 10)%N then (48 + n)%N else (87 + n)%N).
+Definition hex_bytes (b : bytes) : string :=
+  fold_right (fun x acc => String (hexdigit (x / 16)%N) (String (hexdigit (x mod 16)%N) acc)) EmptyString b.
+Definition hex_obytes (b : option bytes) : option string := option_map hex_bytes b.
+Fixpoint rank_in (tk prev : Z) (nows : list Z) (i : N) : N :=
+  match nows with
+  | [] => 65535%N
+  | n :: tl => if ((prev <? tk) && (tk <=? n))%Z then i else rank_in tk n tl (i + 1)%N
+  end.
+Definition rank (tk : Z) (nows : list Z) : N := if (tk =? 0)%Z then 0%N else rank_in tk 0%Z nows 1%N.
+Definition cmp_code (a b : Z) : N := match (a ?= b)%Z with Lt => 0%N | Eq => 1%N | Gt => 2%N end.
+Definition canon_result (nows : list Z) (r : option result) : option (N * string * N * N * N) :=
+  match r with
+  | None => None
+  | Some RDone => Some (9%N, EmptyString, 0%N, 0%N, 0%N)
+  | Some (RQuery fin err q tk fl la) =>
+      Some ((if fin then 1%N else 0%N), hex_bytes err, rank tk nows, cmp_code tk q, (if la then 1%N else 0%N))
+  end.
+Fixpoint changes (prev i : N) (l : list N) : list (N * N) :=
+  match l with
+  | [] => []
+  | x :: tl => if (x =? prev)%N then changes prev (i + 1)%N tl else (i, x) :: changes x (i + 1)%N tl
+  end.
 Definition obs_tuple (o : observation) :=
-  (o_snaps o, o_results o, o_awaits o, (o_prov o, o_tmp o, o_tag o), (o_evt o, o_stale o, o_overlap o)).
+  let nows := map (fun s => snd s) (o_snaps o) in
+  (N.of_nat (List.length (o_snaps o)),
+   changes 1073741824%N 0%N (map (fun s => (fst (fst s) + 8 * rank (snd (fst s)) nows)%N) (o_snaps o)),
+   map (canon_result nows) (o_results o), map N.of_nat (o_awaits o),
+   (o_prov o, hex_obytes (o_tmp o), hex_obytes (o_tag o)), (o_evt o, o_stale o, o_overlap o)).
 """
+
+REQUIRES = "From Coq Require Import List NArith ZArith String Ascii.\nImport ListNotations.\nFrom GPA Require Import Provision."
+
+
+def rank(value, bounds):
+    """index (1-based) of the step whose (lo, hi] clock interval contains value; 0 for the zero tick; -1 unknown"""
+    if value == 0:
+        return 0
+    for i, (lo, hi) in enumerate(bounds):
+        if lo < value <= hi:
+            return i + 1
+    return -1
+
+
+def sign(x):
+    return (x > 0) - (x < 0)
 
 
 def coq_observe(var, sc):
@@ -131,41 +177,34 @@ def b2s(l):
     return bytes(l).decode("utf-8", "replace")
 
 
-# ------------------------------------------------------------------------------------------------
-# canonical form of one hand-polled run (model side and code side)
-# ------------------------------------------------------------------------------------------------
-def rank(value, bounds):
-    """index of the step whose (lo, hi] clock interval contains value; 0 for the zero tick; -1 unknown"""
-    if value == 0:
-        return 0
-    for i, (lo, hi) in enumerate(bounds):
-        if lo < value <= hi:
-            return i + 1
-    return -1
-
-
-def sign(x):
-    return (x > 0) - (x < 0)
+def unhex(p):
+    if p is None:
+        return None
+    if isinstance(p, tuple) and p and p[0] == "Some":
+        p = p[1]
+    return bytes.fromhex(p).decode("utf-8", "replace")
 
 
 def canon_model(sc, obs, var):
-    snaps, results, awaits, (prov, tmp, tag), (evt, stale, overlap) = obs
-    bounds, prev = [], 0
-    for (_fl, _tk, now) in snaps:
-        bounds.append((prev, now))
-        prev = now
-    steps = [(fl, rank(tk, bounds)) for (fl, tk, _now) in snaps]
+    nsteps, chg, results, awaits, (prov, tmp, tag), (evt, stale, overlap) = obs
+    steps, cur, chg = [], None, dict(chg)
+    for i in range(nsteps):
+        cur = chg.get(i, cur)
+        r = cur >> 3
+        steps.append((cur & 7, -1 if r == 65535 else r))
     res = []
-    for t, r in zip(sc["tasks"], results):
+    for r in results:
         if r is None:
             res.append(None)
-        elif r == ("Some", "RDone"):
+            continue
+        _, (fin, err, rk, cmpc, la) = r
+        if fin == 9:
             res.append("done")
         else:
-            _, (_, fin, err, q, tk, fl, la) = r
-            res.append({"fin": fin, "err": b2s(err), "tick_step": rank(tk, bounds), "cmp": sign(tk - q), "latched": la})
-    return {"steps": steps, "results": res, "awaits": list(awaits), "prov": prov, "tmp": b2s(tmp), "tag": b2s(tag),
-            "evt": evt}, {"stale": stale, "overlap": overlap}
+            res.append({"fin": fin == 1, "err": unhex(err), "tick_step": -1 if rk == 65535 else rk,
+                        "cmp": cmpc - 1, "latched": la == 1})
+    return {"steps": steps, "results": res, "awaits": list(awaits), "prov": prov, "tmp": unhex(tmp),
+            "tag": unhex(tag), "evt": evt}, {"stale": stale, "overlap": overlap}
 
 
 def fin_formula(var, tick, q, latched):
@@ -556,7 +595,7 @@ def run(ctx):
     ctx.log("driver: %.1fs" % (time.time() - t0))
     t0 = time.time()
     exprs = [coq_observe(var, sc) for sc in cases]
-    model = vplib.coq_eval(ctx, "From Coq Require Import List NArith ZArith.\nImport ListNotations.\nFrom GPA Require Import Provision.",
+    model = vplib.coq_eval(ctx, REQUIRES,
                            exprs, prelude=PRELUDE, shard=max(40, len(exprs) // 15 + 1), timeout=1500)
     ctx.log("model: %.1fs" % (time.time() - t0))
     nontrivial = set()
@@ -592,18 +631,18 @@ def run(ctx):
     hout = chunked_driver(binary, https, os.path.join(cdir, "http"), chunk=max(5, len(https) // 6 + 1))
     hmodels = [http_to_model(sc) for sc in https]
     hexprs = [coq_observe(var, m) for m in hmodels]
-    hmodel = vplib.coq_eval(ctx, "From Coq Require Import List NArith ZArith.\nImport ListNotations.\nFrom GPA Require Import Provision.",
+    hmodel = vplib.coq_eval(ctx, REQUIRES,
                             hexprs, prelude=PRELUDE, shard=max(10, len(hexprs) // 12 + 1), timeout=1500, name="http")
     n_http_q = 0
     for sc, out, msc, mo in zip(https, hout, hmodels, hmodel):
         if "steps" not in out:
             disagreements.append({"case": sc, "impl": out, "model": "n/a"})
             continue
-        snaps, results, _aw, _fs, _gh = mo
+        cmh, _gh = canon_model(msc, mo, var)
         msgs = {m: sc["setup"].get("msgs", {}).get(m, UNKNOWN_MSG) for m in "RKL"}
         for i, (o, s) in enumerate(zip(sc["ops"], out["steps"])):
             mi = i + 1                               # model task index (task 0 = the listener's own report)
-            mfl = snaps[(mi + 1) * MAXP - 1][0]      # flags after that op completed
+            mfl = cmh["steps"][(mi + 1) * MAXP - 1][0]   # flags after that op completed
             if s["flags"] != mfl:
                 disagreements.append({"case": sc, "op_index": i, "model_flags": mfl, "impl_flags": s["flags"]})
                 break
@@ -617,11 +656,10 @@ def run(ctx):
                 if res.get("status") != 400:
                     failures.append({"case": sc, "why": "/provision without Metadata header answered %r instead of 400" % (res,), "kind": "http"})
                 continue
-            mr = results[mi]
-            _, (_, mfin, merr, _q, _tk, _fl, _la) = mr
+            mr = cmh["results"][mi]
             got = (res.get("finished"), res.get("err"))
-            if got != (mfin, b2s(merr)):
-                disagreements.append({"case": sc, "op_index": i, "op": o, "model": (mfin, b2s(merr)), "impl": got,
+            if got != (mr["fin"], mr["err"]):
+                disagreements.append({"case": sc, "op_index": i, "op": o, "model": (mr["fin"], mr["err"]), "impl": got,
                                       "state": {"flags": s["flags"], "tick": s["tick"], "q": s["q"], "chan": s["chan"]}})
             # the property on the code's answer: ops are sequential here, so the state is known exactly
             tick, flags, chan = int(s["tick"]), s["flags"], s["chan"]
